@@ -25,7 +25,9 @@ ArrayEntries == {"elliptic_block", "sl2_iso", "point_klein", "point_projective",
                  "isometry_matrix", "tangent_vector", "segment", "polygon",
                  \* composite objects built from a LIST of unit objects: the packaging is that of the FIRST part, the
                  \* second part always carries non-integral floating-point data
-                 "point_from_parts", "transformation_from_parts", "polygon_from_parts"}
+                 "point_from_parts", "transformation_from_parts", "polygon_from_parts",
+                 \* array-valued angles: the point at [i][j] is the ideal point of angle theta[i][j]
+                 "ideal_from_angle_grid", "ideal_from_angle_vector"}
 IntEntries == {"coxeter_matrix", "triangle_group", "coxeter_diagram"}          \* Coxeter labels
 
 ScalarPacks == {"py_float", "py_int", "np_float64", "np_float32", "np_int64", "zero_d_float", "zero_d_int"}
